@@ -45,4 +45,35 @@ uint32_t get_w32(const long long *a);
 /* errno class: 0 stays 0, anything negative becomes -1 (R4) */
 static inline long long neg1(long long rc) { return rc < 0 ? -1 : rc; }
 
+
+/* Endpoint flavours.  A script line  "!flav k"  (not an event: neither recorded nor compared) sets harness_flavour for the
+ * rest of the script.  Adapters whose subsystem talks to a Source/Sink build them through these helpers so that the same
+ * model-prescribed behaviour is demanded through octet-style and chunk-style, whole and fragmenting endpoints:
+ *   sink   flavour 0: chunk-style, the raw driver sees whole chunks        1: chunk-style, one octet accepted per call
+ *          flavour 2: octet-style
+ *   source flavour 0: as the adapter declares it                          1: the other style (octet <-> chunk of one octet)
+ * The raw driver is always called with pieces of one octet in flavours 1/2, so drivers that count calls stay meaningful. */
+extern int harness_flavour;
+#ifdef INC_UFW_SOURCES_AND_SINKS_H
+typedef struct { ChunkSink f; void *drv; } FlavSink;
+static ssize_t flav_sink_one(void *d, const void *b, size_t n) { FlavSink *k = d; return n ? k->f(k->drv, b, 1) : 0; }
+static int flav_sink_octet(void *d, unsigned char o) { FlavSink *k = d; return (int)k->f(k->drv, &o, 1); }
+static inline void flav_sink_init(Sink *s, FlavSink *k, ChunkSink f, void *drv, int flavour)
+{
+    k->f = f; k->drv = drv;
+    if (flavour % 3 == 1) chunk_sink_init(s, flav_sink_one, k);
+    else if (flavour % 3 == 2) octet_sink_init(s, flav_sink_octet, k);
+    else chunk_sink_init(s, f, drv);
+}
+typedef struct { ByteSource f; void *drv; } FlavOSource;
+static ssize_t flav_osource_chunk(void *d, void *b, size_t n) { FlavOSource *k = d; return n ? k->f(k->drv, b) : 0; }
+/* an octet-style raw driver, presented octet-style (flavour even) or as a chunk-style source delivering one octet per call */
+static inline void flav_osource_init(Source *s, FlavOSource *k, ByteSource f, void *drv, int flavour)
+{
+    k->f = f; k->drv = drv;
+    if (flavour % 2 == 1) chunk_source_init(s, flav_osource_chunk, k);
+    else octet_source_init(s, f, drv);
+}
+#endif
+
 #endif
